@@ -230,7 +230,8 @@ def work(item):
             if i % nshards != shard:
                 continue
             ntok = len(scripts.tokenize_line(line)[1])
-            J.judge((0, 8, ntok, line), "FRAME: " + line, scripts.scaffold(line), extra_files=scripts.LOADED)
+            J.judge((0, 8, ntok, line), "FRAME(rich scaffold): " + line, scripts.scaffold(line, rich=True),
+                    extra_files=scripts.LOADED)
     elif kind == "clones":
         _, (kinds, roots), n, _, qflag, shard, nshards = item
         for i, (label, text) in enumerate(scripts.gen_clone_graphs(n, kinds, roots)):
